@@ -150,6 +150,29 @@ claim(
     "DESIGN.md section 4, C12",
 )
 
+claim(
+    "C03",
+    "collection-coverage and ordering rules on the live-range extraction (CFG); closed-interval convention table; finite-domain comparison of the three "
+    "double-buffer parity expressions; structural rules for pre-buffering, rolling-buffer shape, LUT residency reset and write protection",
+    "Decides clauses a-f of DESIGN.md 4/C03: every touched tensor is marked live at its operation's step; end_time is inclusive at every expansion; "
+    "scheduler / live ranges / command generator agree on the buffer of the last depth slice for 1-2 buffers and 1-7 slices; pre-buffering only extends; "
+    "rolling buffers are round_up(prod+cons, cons) tall, max(prod, cons) wide and rebuilt per cascade proposal; LUT residency is dropped after any non-LUT "
+    "stripe; in-place reuse is decided before consumers are rewired. Does NOT decide per-byte definedness or rolling-buffer sufficiency for concrete stripes.",
+    "Trusted: recognised idioms of live_range.py / cascade_builder.py / lut.py; expression folding with len() substituted by small integers.",
+    "DESIGN.md section 4, C03",
+)
+claim(
+    "C10",
+    "tiling-idiom check of the stripe loops (linear-form comparison of range / min bounds); flag and padding-override rules; axis / side role "
+    "homogeneity with index conventions for coordinates, strides and skirt; sibling agreement of the receptive-field formula",
+    "Decides clauses a-d of DESIGN.md 4/C10: stripe loops have the canonical partition form with identical bounds in range() and min(); depth slices are "
+    "consecutive entries clamped by the same bounds; the OFM box is built from exactly these values; first/last flags and the per-stripe pad override follow "
+    "from the same bounds; geometry never mixes axes or sides; bottom padding is the last kernel row minus the IFM height. Does NOT decide the "
+    "receptive-field arithmetic for all shapes nor the scheduler's stripe choices.",
+    "Trusted: positive steps and ascending depth slices; name / index based axis roles (strides[1]=H, [2]=W; skirt[0,2]=H, [1,3]=W; coord[-3,-2,-1]=H,W,C).",
+    "DESIGN.md section 4, C10",
+)
+
 
 def build():
     checks = []
